@@ -146,9 +146,20 @@ class C03(Prop):
             ctl['priority'] = p_
         if len(rules) > 7:
             scn['controls'] = [ctl for ctl in scn['controls'] if ctl['kind'] != 'rule'] + rules[:7]
-        # a rule and a simple control commanding the same link: the two kinds are not ordered either
-        simple_targets = set(ctl['then'][0]['link'] for ctl in scn['controls'] if ctl['kind'] == 'simple')
-        scn['controls'] = [ctl for ctl in scn['controls'] if not (ctl['kind'] == 'rule' and any(a['link'] in simple_targets for a in ctl['then'] + ctl.get('else', [])))]
+        # a rule and a simple control due at the same instant on the same link: both engines let the simple control have the last word
+        # (EPANET evaluates rules while it advances the clock and applies simple controls when the next solution starts)
+        if 'rule' in kinds and rng.chance(0.35):
+            pp = gen.plain_pipes(scn)
+            if pp:
+                l = rng.pick(pp)
+                k = rng.irange(1, max(1, o['duration'] // hyd - 1))
+                t = int(k * hyd)
+                val = rng.pick(['OPEN', 'CLOSED'])
+                scn['controls'].append({'name': 'clash_c', 'kind': 'simple', 'cond': {'t': 'simtime', 'rel': '=', 'thr': t},
+                                        'then': [{'link': l['id'], 'attr': 'status', 'value': val}], 'priority': 3})
+                scn['controls'].append({'name': 'clash_r', 'kind': 'rule', 'cond': {'t': 'simtime', 'rel': '=', 'thr': t},
+                                        'then': [{'link': l['id'], 'attr': 'status', 'value': 'OPEN' if val == 'CLOSED' else 'CLOSED'}], 'else': [],
+                                        'priority': rng.pick([1, 5])})
         nu = 3 if tier == 'quick' else 10
         us = list(UNITS)
         rng.shuffle(us)
